@@ -531,6 +531,7 @@ impl Gen {
                 if c.adopt { 2 } else { 0 },
                 if c.drops { 1 } else { 0 },
                 c.w_stabilise,
+                1,
             ];
             match rng.weighted(&weights) {
                 0 => return Some(Action::NewVar(if rng.chance(1, 3) { pset(rng.range(0, 4)) } else { Val::I(rng.range(0, 4)) })),
@@ -644,6 +645,15 @@ impl Gen {
                         if all.len() > 3 {
                             return Some(Action::DropHandle(*rng.pick(&all)));
                         }
+                    }
+                }
+                11 => {
+                    if rng.chance(1, 2) {
+                        return Some(Action::Dot);
+                    }
+                    let all: Vec<NodeId> = (0..w.model.nodes.len()).filter(|n| w.model.nodes[*n].handle_alive).collect();
+                    if !all.is_empty() && self.cfg.subscriptions {
+                        return Some(Action::OnUpdate(*rng.pick(&all)));
                     }
                 }
                 _ => {
